@@ -41,16 +41,13 @@ Proof.
         assert (K1 : keep (updm (add_lock s1 k' r) k' (fun m => m <| m_locked := add32 (m_locked m) 1 |>)) X) by apply keep_refl;
         assert (K2 : keep Y S') by keep_x;
         destruct (new_hold_chg S0 k' conn' c' s1 r _ X Y aev S' Hn Hf K1 HE K2) as ((Hr' & Hlt) & _ & _);
-        split; [exact Hr'|rewrite <- Hr'; exact Hlt]
+        split; [exact Hr'|apply (N.le_lt_trans _ r); [rewrite Hr'; apply N.le_refl|exact Hlt]]
       end
     end].
   all: try solve [
     match goal with Hn : new_lock ?S0 ?k' ?conn' ?c' = (?s1, ?r) |- _ /\ _ < next ?S' =>
       destruct (new_wait_chg S0 k' conn' c' s1 r S' Hn ltac:(keep_x)) as ((Hr' & Hlt) & _ & _);
-      split; [exact Hr'|rewrite <- Hr'; exact Hlt]
+      split; [exact Hr'|apply (N.le_lt_trans _ r); [rewrite Hr'; apply N.le_refl|exact Hlt]]
     end].
-  all: let n := numgoals in idtac n.
   all: try solve [right; apply (getm_href _ k); eapply get_locked_lock_href; eassumption].
-  all: let n := numgoals in idtac n.
-  Show 1.
-Abort.
+Qed.
